@@ -28,13 +28,17 @@ CHECK = {
         "axis-aligned/centred surfaces of their own universe) get no representative",
     ],
     "bounds": {"zoo_added": "g6, g7 (x- / y-aligned cylinders cx, cy, cxc, cyc with simple safety; cones kx, ky) and the rectangular arrays 5x2x1, 2x5x1, 1x2x6 of problems/geo_zoo_arrays.hh (2x5x1 and 1x2x6: grid origin (-1.5, 0.25, -2), alternating cell widths w, 1.5 w)",
-               "quick": {"lattice": 5, "directions": 38, "sphere_points": 64, "scan_lattice": 17,
-                         "foot_points_per_face": 1, "deltas": [0.003, 0.02]},
+               "quick": {"lattice": 9, "directions": 62, "sphere_points": 200, "scan_lattice": 31,
+                         "foot_points_per_face": 4, "deltas": [0.001, 0.003, 0.02, 0.08],
+                         "note": "same depth as thorough (parts[].depth); the 5-lattice/38-direction "
+                                 "variant is still reachable with --tier quick on the harness"},
                "thorough": {"lattice": 9, "directions": 62, "sphere_points": 200, "scan_lattice": 31,
                             "foot_points_per_face": 4, "deltas": [0.001, 0.003, 0.02, 0.08]}},
     "parts": [
         {"name": "safety", "harness": "c11_safety", "flavour": "rel",
-         "shards": {"quick": 16, "thorough": 16}, "deadline": {"quick": 90, "thorough": 900}},
+         # the thorough lattice costs ~7 s: the quick command runs it too
+         "depth": {"quick": "thorough"},
+         "shards": {"quick": 16, "thorough": 16}, "deadline": {"quick": 300, "thorough": 900}},
     ],
 }
 META = {
